@@ -276,11 +276,13 @@ class CoupledSystem:
             for o in self.out_names
         }
 
-    def defect(self, data: dict) -> tuple[float, str]:
-        """Largest |re-executed output - data output| over all disciplines, and where."""
+    def defect(self, data: dict, names=None) -> tuple[float, str]:
+        """Largest |re-executed output - data output| over all disciplines (outputs ``names`` only if given), and where."""
         worst, where = 0.0, ""
         for i in range(len(self._maps)):
             for name, val in self.run(i, data).items():
+                if names is not None and name not in names:
+                    continue
                 got = np.asarray(data[name], dtype=float).reshape(-1)
                 d = float(np.max(np.abs(val - got), initial=0.0)) if got.shape == val.shape else float("inf")
                 if not d <= worst:  # also catches NaN
